@@ -1011,6 +1011,16 @@ def c16(tier, replay_file=None):
                     return 1
                 log("replay: C16 holds on the --auto-all-keyboards path for this schedule with the current tree")
                 return 0
+            if rp.get("engine") == "E3-fleet":
+                out = fleet_runs(res, exe, wd, "quick", replay_case=rp["case"])
+                if res.tool_errors:
+                    log("TOOL-ERROR: " + res.tool_errors[0])
+                    return 2
+                if out.get("bad"):
+                    log("VIOLATION property=C16 replay=%s clause=%s" % (replay_file, ",".join(out["bad"][0][1])))
+                    return 1
+                log("replay: C16 holds where the devices are opened (--all-keyboards / --dev-file) for this schedule with the current tree")
+                return 0
             cases = cases[:nkinds] + [dict(rp["case"], id=nkinds + 1)]
             write_ndjson(cpath, cases)
         log("[tlc] DevGen: %d cases over %d entry kinds, %.1fs" % (len(cases), nkinds, time.time() - t0))
